@@ -359,12 +359,15 @@ def rule_mod_window(ctx):
                     bad_window = (kind, c, age)
         # max + le end to end (the decision the cascade takes on a merged stamp): the merged stamp passes the age
         # test only if every merged stamp is truly old enough; if all are inside the unambiguous window it passes
-        AGES = (0, 1, 2, 3, 4, 8, 12, 13, 14, 15, 16, 17, 18, 19, 31, 35) if tier == "thorough" else \
+        AGES = (0, 1, 2, 3, 4, 12, 13, 14, 15, 16, 18, 19, 35) if tier == "thorough" else \
             (0, 2, 3, 13, 14, 16, 18, 19)
         import itertools
         combos = list(itertools.product(AGES, repeat=3)) if tier == "thorough" else \
             [(a, b2, b2) for a in AGES for b2 in AGES] + [(0, 3, 7), (5, 1, 9), (13, 13, 2), (4, 4, 4)]
-        for (kind, c) in [("K", x) for x in range(MOD)] + [("c", e) for e in range(0, 3 * MOD)]:
+        cfgs = [("K", x) for x in range(MOD)] + [("c", e) for e in range(0, 3 * MOD)]
+        if tier == "thorough":
+            cfgs = [("K", x) for x in range(MOD)] + [("c", e) for e in range(0, 2 * MOD + 4)]
+        for (kind, c) in cfgs:
             for ages in combos:
                 if kind == "c" and max(ages) > c:
                     continue
